@@ -106,7 +106,7 @@ def grep_forbidden():
     return hits
 
 
-def lean_side(prop, thorough=False):
+def lean_side(prop, thorough=False, driver=None):
     """Regenerate tables, build, audit the theorems of `prop`.
 
     Returns a dict with `obligations` (names), `discharged` (names), `failures`
@@ -131,7 +131,7 @@ def lean_side(prop, thorough=False):
         thms = entry.get('theorems', [])
         mods = entry.get('modules', [])
         res['obligations'] = list(thms)
-        rc, out = _lake(['build', 'DD', 'ddvdrv'] + mods)
+        rc, out = _lake(['build', 'DD', 'ddvdrv'] + ([driver] if driver else []) + mods)
         if rc != 0:
             res['ok'] = False
             res['failures'].append('lake build failed:\n' + out[-4000:])
